@@ -24,6 +24,8 @@ operation counts whose pack lists are extend()ed into final_pack_list, in the sa
 `pack_operations[-1][0] += n` is in the same block as `pack_operations[-1][1].append(p)` for the (n, p) popped in that
 iteration — so the revision count reported for the combination is the sum of the combined packs' counts.
 R3 (shape) _max_pack_count is the digit sum of the revision count (sum of int(digit) over str(total), 1 for zero).
+Added while testing against seeded changes: R3b pack_distribution / _max_pack_count / the planner use integer
+arithmetic only (no floating point) and pack_distribution is built from the decimal digits like _max_pack_count.
 Does not decide: the digit-sum bound after packing, "at least two packs" (the AssertionError for a single pack is
 reachable or not depending on integer inputs) or index errors on pack_distribution[0] — unbounded integer arithmetic,
 out of reach for static analysis without a solver.
